@@ -35,6 +35,9 @@ NEEDED = {
     "S-C12-4": "C12 threads polling the client's state queries (is_closed, addresses) while a sender is blocked mid-packet and another waits",
     "S-C13-4": "C13 'drain' statements (real WriteFlowControl.drain() with a scripted resume_writing()) and the order-based rule I1s (no normal end in a task step that starts after an enclosing scope's cancel())",
     "S-C14-4": "C14 path 'client-connecting' (aclose() while wait_connected() is inside the connection set-up); same change as S-C19-2, C19 caught it before",
+    "S-C16-4": "C16 level 'high' (handler run through servers.misc.build_lowlevel_datagram_server_handler) with handlers that let their TimeoutError escape",
+    "S-C19-4": "C19 client level now goes through the real AsyncIOBackend.create_tcp_connection() (only name resolution is scripted); before, the harness back-end called the race itself and skipped the code between the race and wrap_stream_socket()",
+    "S-C20-4": "C20 api 'tls.send_all' (AsyncTLSStreamTransport over the asyncio adapter, 1-5 concurrent senders); C08 and C12 caught it before. The new scenario also found a genuine defect (known finding tls-queued-sender-success-after-failed-flush)",
     "S-C16-2": "C16 datagrams arriving before serve() and a stop + restart of serve() on the same listener",
     "S-C19-2": "C19 client level: AsyncTCPNetworkClient closed / its waiter cancelled at every step of the race",
     "S-C04-2": "C04 interrupted send then resume (C20 caught it before)",
